@@ -137,7 +137,7 @@ func profileFor(prop, tier string, rng *PRNG) *Profile {
 	case "C12":
 		only("pnft", "pnftAdv", "multi", "rollback")
 		boost("pnftAdv", 4)
-		p.PBootstrap = 0.08
+		p.PBootstrap = 0.12
 	case "C13":
 		p.PBootstrap = 0.12
 		only("aol", "aolAdv", "authz", "rollback")
@@ -252,7 +252,7 @@ func (g *Gen) addr(i int) string { return g.env.Accs[i%len(g.env.Accs)].Addr.Str
 var topicPool = []string{"a", "a.", "a.b", "a.b-c", "A", "a_b", "ab", "b", "0", "topic-1", "topic-10", "t." + strings.Repeat("x", 68), strings.Repeat("Z", 70), "-", "._-"}
 // identifier pools: prefixes of one another, separators, case twins, white-space twins ("dn" / "dn " / " dn"), NUL, multi-byte
 var denomPool = []string{"dn", "dn1", "dn/x", "d", "dnx", "den:om", "DN", strings.Repeat("q", 90), "dn\x00x", "dn\x00", "ünï", "a b", "dn ", " dn", "dn\t", "d "}
-var tokenPool = []string{"x", "y", "x/y", "x\x00y", "1", "10", "tok", "T", strings.Repeat("k", 120), "\x00", "é", "x ", " x", "tok ", "1\n"}
+var tokenPool = []string{"dn", "dn1", "d", "x", "y", "x/y", "x\x00y", "1", "10", "tok", "T", strings.Repeat("k", 120), "\x00", "é", "x ", " x", "tok ", "1\n"}
 
 func GenerateScript(seed uint64, prop, tier string, env *Env) *Script {
 	rng := NewPRNG(seed ^ 0xA5A5_0000_0000_5A5A)
@@ -271,7 +271,7 @@ func GenerateScript(seed uint64, prop, tier string, env *Env) *Script {
 	s.Config.CrashEnum = g.p.CrashEnum
 	s.Config.CrashSample = g.p.CrashSamp
 	s.Config.Genesis.TimeUnix = []int64{1700000000, 946684800, 4102444800, 1}[rng.Pick([]int{6, 1, 1, 1})]
-	if prop == "C09" && rng.Chance(0.08) {
+	if prop == "C09" && rng.Chance(0.12) {
 		// every header carries the zero time (a clock that never started). CometBFT never produces such headers, so this
 		// is only used where the statement quantifies over every block sequence and wall-clock independence (C09); other
 		// properties would see artefacts of the impossible timestamp (e.g. PNFT genesis validation refuses created_at = 0)
@@ -348,8 +348,25 @@ func GenerateScript(seed uint64, prop, tier string, env *Env) *Script {
 			viaGov = false
 		}
 	}
+	earlyAt, earlyAhead := -1, 0
+	if upgradeAt < 0 && nBlocks >= 8 && rng.Chance(map[bool]float64{true: 0.3, false: 0.1}[prop == "C10" || prop == "C19"]) {
+		// a plan named after a release that was never built, due a few blocks ahead, at a height every operator has put into
+		// --unsafe-skip-upgrades: it sits in the committed state while nodes crash and restart, and is dropped at its height
+		earlyAt, earlyAhead = rng.Range(1, nBlocks-6), rng.Range(2, 4)
+		h0 := s.Config.InitialHeight
+		if h0 < 1 {
+			h0 = 1
+		}
+		s.Config.SkipUpgradeHeights = []int64{h0 + int64(earlyAt) + 1 + int64(earlyAhead)}
+	}
 	fams, ws := weightList(g.p.W)
 	for b := 0; b < nBlocks; b++ {
+		if b == earlyAt {
+			g.steps = append(g.steps, Step{K: "planahead", Ahead: earlyAhead})
+		}
+		if earlyAt >= 0 && b > earlyAt && b <= earlyAt+earlyAhead && rng.Chance(0.5) {
+			g.steps = append(g.steps, Step{K: "restart0"})
+		}
 		if viaGov && b == upgradeAt-2 {
 			h0 := s.Config.InitialHeight
 			if h0 < 1 {
@@ -1250,6 +1267,13 @@ func (g *Gen) famDidAdv() {
 	case 6: // C11: document about another identifier under this DID (signed by the other identifier's key)
 		odid := g.env.Dids[other]
 		doc := g.didDoc(odid, []int{other}, 0)
+		if r.Chance(0.4) && len(odid) > len("did:panacea:")+33 {
+			// ... where "this DID" is the other identifier cut short by a few characters (still a well-formed DID, and a
+			// string prefix of the document's id and of every method id in it)
+			cut := odid[:len(odid)-r.Range(1, len(odid)-len("did:panacea:")-32)]
+			g.tx(MsgSpec{T: "did.Create", F: map[string]string{"did": cut, "from": from}, Doc: doc, Proof: &ProofSpec{Key: other, MethodID: fmt.Sprintf("%s#key%d", odid, other), Seq: "0"}})
+			return
+		}
 		g.tx(MsgSpec{T: "did.Create", F: map[string]string{"did": g.env.Dids[(other+3)%NumDidKeys], "from": from}, Doc: doc, Proof: &ProofSpec{Key: other, MethodID: fmt.Sprintf("%s#key%d", odid, other), Seq: "0"}})
 	case 7: // C11: update carrying a document whose id is another DID (valid proof of the stored key)
 		odid := g.env.Dids[other]
@@ -1291,7 +1315,18 @@ func (g *Gen) famDidAdv() {
 		a := g.emit(&TxSpec{Msgs: []MsgSpec{{T: "did.Update", F: map[string]string{"did": did, "from": g.addr(1)}, Doc: g.didDoc(did, []int{k}, 0), Proof: p1}}})
 		g.didTx = append(g.didTx, didRef{a, did})
 		g.emit(&TxSpec{Msgs: []MsgSpec{{T: "did.Update", F: map[string]string{"did": did, "from": g.addr(2)}, Doc: g.didDoc(did, []int{k, other}, 0), Proof: &ProofSpec{Key: k, MethodID: mid, Seq: "cur-1"}}}})
-	case 13: // garbage signature bytes
+	case 13: // garbage signature bytes; the genuine signature in its other, malleable encoding (r, N-s)
+		if r.Chance(0.5) {
+			p := &ProofSpec{Key: k, MethodID: mid, Seq: "cur", HighS: true}
+			if r.Chance(0.5) {
+				g.tx(MsgSpec{T: "did.Deactivate", F: map[string]string{"did": did, "from": from}, Proof: p})
+				// had it been accepted (it must not be): the DID stays deactivated whatever was stored
+				g.tx(MsgSpec{T: "did.Create", F: map[string]string{"did": did, "from": from}, Doc: g.didDoc(did, []int{other}, 0), Proof: &ProofSpec{Key: other, MethodID: fmt.Sprintf("%s#key%d", did, other), Seq: "0"}})
+			} else {
+				upd(p, g.didDoc(did, []int{k}, 0))
+			}
+			return
+		}
 		upd(&ProofSpec{Key: k, MethodID: mid, RawSig: hex.EncodeToString(r.Bytes([]int{1, 63, 64, 65, 200}[r.Intn(5)]))}, g.didDoc(did, []int{k}, 0))
 	}
 }
@@ -1385,7 +1420,11 @@ func (g *Gen) famPnft() {
 	adv := g.prop == "C12" && r.Chance(0.3)
 	switch {
 	case len(dens) == 0 || r.Chance(0.15):
-		g.tx(M("pnft.CreateDenom", "id", g.idFrom(denomPool, adv), "name", "name", "symbol", "SYM", "desc", "d", "uri", "u", "uri_hash", "h", "data", "{}", "creator", g.addr(r.Intn(5))))
+		creator := g.addr(r.Intn(5))
+		if r.Chance(0.07) {
+			creator = strings.ToUpper(creator) // bech32's other legal spelling: signs as the same account, is stored as written
+		}
+		g.tx(M("pnft.CreateDenom", "id", g.idFrom(denomPool, adv), "name", "name", "symbol", "SYM", "desc", "d", "uri", "u", "uri_hash", "h", "data", "{}", "creator", creator))
 	default:
 		d := dens[r.Intn(len(dens))]
 		owner := g.plan.Denoms[d].Owner
@@ -1428,7 +1467,21 @@ func (g *Gen) famPnftAdv() {
 	d := dens[r.Intn(len(dens))]
 	owner := g.plan.Denoms[d].Owner
 	stranger := g.addr(6 + r.Intn(3))
-	switch r.Intn(13) {
+	switch r.Intn(14) {
+	case 13: // a denom id that changes hands by deletion and re-creation: whatever the first owner could do ended with the deletion
+		id := fmt.Sprintf("reborn%d", g.next)
+		a, b := g.addr(r.Intn(5)), g.addr(5+r.Intn(4))
+		g.tx(M("pnft.CreateDenom", "id", id, "name", "first", "symbol", "F", "creator", a))
+		if r.Chance(0.4) {
+			g.tx(M("pnft.Mint", "denom", id, "id", "t", "name", "n", "creator", a))
+			g.tx(M("pnft.Burn", "denom", id, "id", "t", "burner", a))
+		}
+		g.tx(M("pnft.DeleteDenom", "id", id, "remover", a))
+		g.tx(M("pnft.CreateDenom", "id", id, "name", "second", "symbol", "S", "creator", b))
+		g.tx(M("pnft.Mint", "denom", id, "id", "by-first", "name", "n", "creator", a))
+		g.tx(M("pnft.UpdateDenom", "id", id, "name", "mine-again", "updater", a))
+		g.tx(M("pnft.Mint", "denom", id, "id", "by-second", "name", "n", "creator", b))
+		g.tx(M("pnft.DeleteDenom", "id", id, "remover", a))
 	case 0: // mint by a non-owner (names itself)
 		g.tx(M("pnft.Mint", "denom", d, "id", g.idFrom(tokenPool, false), "name", "x", "creator", stranger))
 	case 1: // hand over, then old and new owner try to mint
@@ -1437,7 +1490,18 @@ func (g *Gen) famPnftAdv() {
 		g.tx(M("pnft.Mint", "denom", d, "id", "after-old", "name", "x", "creator", owner))
 		g.tx(M("pnft.Mint", "denom", d, "id", "after-new", "name", "x", "creator", nw))
 	case 2: // stranger updates / deletes / hands over a denom
-		g.tx(M([]string{"pnft.UpdateDenom", "pnft.DeleteDenom"}[r.Intn(2)], "id", d, "name", "hijack", "updater", stranger, "remover", stranger))
+		if r.Chance(0.5) {
+			// an update by a non-owner, of any subset of the fields (each field group may have a path of its own)
+			m := M("pnft.UpdateDenom", "id", d, "updater", stranger)
+			for _, f := range [][2]string{{"name", "hijack"}, {"symbol", "HJ"}, {"desc", "taken"}, {"uri", "https://evil.example"}, {"uri_hash", "00"}, {"data", "{\"x\":1}"}} {
+				if r.Chance(0.35) {
+					m.F[f[0]] = f[1]
+				}
+			}
+			g.tx(m)
+		} else {
+			g.tx(M("pnft.DeleteDenom", "id", d, "remover", stranger))
+		}
 		g.tx(M("pnft.TransferDenom", "id", d, "sender", stranger, "receiver", stranger))
 	case 3: // signer differs from the actor named in the message
 		if acc := g.env.AccByAddr(mustAddr(stranger)); acc != nil {
